@@ -37,7 +37,9 @@ FUNCS = {
     ),
     # ------------------------------------------------------------------------------------------------
     'bp.agent:Agent._do_rx_step': dict(
-        self=AG, params={'ctr': CTR}, props=['C10'],
+        # (C19 as well: a bundle a local endpoint has claimed is not also given a forwarding decision -- it would be
+        # finished, and reported on, twice)
+        self=AG, params={'ctr': CTR}, props=['C10', 'C19'],
         requires=[('has_destination', 'ctr.bundle.primary is not None and unwrap(ctr.bundle.primary).destination is not None', [])],
         modifies=['Ctr.actions', 'Ctr.status_reason'],
         loops={0: dict(invariant=[
@@ -46,7 +48,7 @@ FUNCS = {
         ])},
         locals={'found': 'Opt[Ref[RxRouteItem]]'},
         ensures=[
-            ('already_delivered_untouched', 'implies(old(contains(ctr.actions, "deliver")), ctr.actions == old(ctr.actions))', ['C10']),
+            ('already_delivered_untouched', 'implies(old(contains(ctr.actions, "deliver")), ctr.actions == old(ctr.actions))', ['C10', 'C19']),
             ('first_match_decides',
              'implies(not old(contains(ctr.actions, "deliver")), forall(i, 0, length(T(self)), '
              'implies(first_match_at(self, ctr, i), dom(ctr.actions) == set_add(old(dom(ctr.actions)), T(self)[i].action))))',
